@@ -638,6 +638,89 @@ def run_scale(case):
     return R
 
 
+def shell_vectors(d, nq):
+    """the first nq non-zero integer vectors ordered by |n|^2 then lexicographically (whole shells first, so |q| groups occur)"""
+    import itertools as it
+
+    r = 1
+    while True:
+        vs = sorted((v for v in it.product(range(-r, r + 1), repeat=d) if any(v)), key=lambda v: (sum(x * x for x in v), v))
+        if len(vs) >= nq:
+            return [list(v) for v in vs[:nq]]
+        r += 1
+
+
+def gen_sq_scale(tier, seed):
+    Ns = [65, 257] if tier == "quick" else [64, 65, 130, 257, 600]
+    NQ = [64, 65, 129] if tier == "quick" else [63, 64, 65, 128, 129, 257]
+    for d, boxes in ((3, {"cube": [7.0, 7.0, 7.0], "uneq": [7.0, 9.0, 11.0]}), (2, {"sqr": [8.0, 8.0], "uneq": [7.0, 9.0]})):
+        for box, L in boxes.items():
+            for n in Ns:
+                for nq in NQ:
+                    if tier == "quick" and (n, nq) not in ((65, 64), (65, 129), (257, 65)):
+                        continue
+                    for kind in ("bool", "float", "complex", "vector", "cvector"):
+                        yield {"part": "sq", "d": d, "box": box, "L": L, "n": n, "nq": nq, "kind": kind, "seed": seed}
+
+
+def run_sq_scale(case):
+    from PyMatterSim.static.sq import conditional_sq
+    from mc.ref import scale as SC
+
+    R = Result()
+    d, n, kind, L = case["d"], case["n"], case["kind"], [float(x) for x in case["L"]]
+    qint = shell_vectors(d, case["nq"])
+    pos = SC.dense_points(case["seed"], n, d, L, tag=f"c13sq{d}{case['box']}_")
+    qvec = np.array(qint, float) * (2 * math.pi / np.array(L))
+    qn = np.linalg.norm(qvec, axis=1)
+    groups = group_norms(qn, 8)
+    if groups is None:
+        return R.screen()
+    keys = np.array([k for k, _ in groups])
+    sig = gsig(case, kind=kind, scale=True)
+    if kind == "bool":
+        cond = np.array([(i * 7) % 20 < 13 for i in range(n)])
+        A_ = cond.astype(float)[:, None]
+        M = int(cond.sum())
+    elif kind == "float":
+        cond = np.array([[-1.0, 0.5, 2.0][(i * i + i // 3) % 3] for i in range(n)])
+        A_, M = cond[:, None], n
+    elif kind == "complex":
+        cond = np.array([[1.0 + 0j, 1j, -1.0 + 2j][(i * i + i // 3) % 3] for i in range(n)], dtype=np.complex128)
+        A_, M = cond[:, None], n
+    else:
+        e = np.eye(d)
+        lv = [e[0], -e[1], (e[0] + e[1]) / math.sqrt(2)]
+        cond = np.array([lv[(i * i + i // 3) % 3] for i in range(n)])
+        if kind == "cvector":
+            cond = cond * np.array([[1.0 + 0j, 1j, -1.0 + 1j][i % 3] for i in range(n)])[:, None]
+        A_, M = cond, n
+    ph = np.exp(-1j * (pos @ qvec.T))  # (n, nq)
+    ref = (np.abs(np.einsum("ic,iq->cq", A_, ph)) ** 2).sum(axis=0) / M
+    snap = mk_snap(pos, np.diag(L), [1] * n)
+    qarr = np.array(qint, dtype=int)
+    c0 = cond.copy()
+    per, ave = conditional_sq(snap, qarr, cond)
+    if len(per) != len(qint) or "Sq" not in per.columns or "Sq" not in ave.columns:
+        R.fail(f"returned tables: {list(per.columns)} ({len(per)} rows), {list(ave.columns)}", sig=dict(sig, clause="columns"))
+        return R
+    v = per["Sq"].values.astype(float)
+    tol = 0.5000001e-8 + 1e-9 * np.abs(ref)
+    if (np.abs(v - ref) > tol).any() or not np.isfinite(v).all():
+        k = int(np.argmax(np.abs(v - ref) - tol))
+        R.fail(f"N={n}, {len(qint)} wave vectors: S(q) of vector #{k} {qint[k]}: got {v[k]!r}, |sum A exp(-iqr)|^2/N = {ref[k]!r}", sig=dict(sig, clause="Sq"))
+    gm = np.array([ref[idx].mean() for _, idx in groups])
+    if len(ave) != len(groups) or not np.allclose(ave["q"].values, keys, rtol=0, atol=1e-9) \
+            or (np.abs(ave["Sq"].values - gm) > 0.5000001e-8 + 1e-9 * np.abs(gm)).any():
+        R.fail(f"N={n}, {len(qint)} wave vectors: per-|q| average wrong ({len(ave)} rows, {len(groups)} groups)", sig=dict(sig, clause="average"))
+    if not np.array_equal(cond, c0) or not np.array_equal(qarr, np.array(qint, dtype=int)):
+        R.fail("input array modified", sig=dict(sig, clause="input_modified"))
+    R.outcome(np.round(v, 6))
+    R.elem = len(v) + len(groups)
+    R.nontrivial = len(groups) >= 2 and float(np.ptp(v)) > 1e-6
+    return R
+
+
 # --------------------------------------------------------------------------------------- subs
 def subs(tier, seed):
     out = []
@@ -669,6 +752,11 @@ def subs(tier, seed):
                             "wave-vector list); EVERY assignment of the value alphabet run; per-vector S and per-|q| average compared with "
                             "|sum_i A_i exp(-i q.r_i)|^2 / N (selected count for bool) from explicit loops",
                        bounds={"N": [3, nmax], "qlists": list(QL3)}))
+    out.append(Sub("C13.sq.scale", gen_sq_scale, run_sq_scale,
+                   rule="size slice: N in " + ("{65, 257}" if tier == "quick" else "{64, 65, 130, 257, 600}") + " particles x the first nq integer wave vectors ordered by shell, nq in "
+                        + ("{64, 65, 129}" if tier == "quick" else "{63, 64, 65, 128, 129, 257}") + " x 2D/3D x equal / unequal edges x {bool, float, complex, vector, complex vector}: every per-vector "
+                        "value and every per-|q| average against a vectorised Fourier sum (one fixed value pattern per size)",
+                   bounds={"N": [65, 257] if tier == "quick" else [64, 65, 130, 257, 600]}))
     out.append(Sub("C13.sq.reduce", gen_sq_reduce, run_sq_reduce,
                    rule=f"every surjective type map of N=4{',5' if tier == 'thorough' else ''} particles onto K=1..{'min(N,5)' if tier == 'thorough' else 3} species: conditional_sq(types==a) average == sq()['Sqaa'] within the "
                         "documented 1e-6 rounding; A = 1 (float, complex) == sq()['Sq']"))
